@@ -497,8 +497,25 @@ func c07PivotPassOrder(c *Ctx) {
 			return true
 		}
 		nm := calleeName(info, call)
+		// a pass moved into a helper of the package counts at the helper's call site
+		via := map[string]bool{}
+		if strings.HasPrefix(nm, "internal/core/export.") {
+			if h := c.fnOpt("internal/core/export", strings.TrimPrefix(nm, "internal/core/export.")); h != nil {
+				ast.Inspect(h.Body, func(y ast.Node) bool {
+					if hc, ok := y.(*ast.CallExpr); ok {
+						hn := calleeName(h.Info(), hc)
+						for _, p := range passes {
+							if strings.HasSuffix(hn, "."+p) || strings.HasSuffix(hn, ")."+p) {
+								via[p] = true
+							}
+						}
+					}
+					return true
+				})
+			}
+		}
 		for _, p := range passes {
-			if strings.HasSuffix(nm, "."+p) || strings.HasSuffix(nm, ")."+p) {
+			if strings.HasSuffix(nm, "."+p) || strings.HasSuffix(nm, ")."+p) || (via[p] && !strings.HasSuffix(nm, "."+p)) {
 				if _, seen := sites[p]; seen {
 					continue
 				}
